@@ -118,6 +118,12 @@ def match_known(pid, result, known):
     return None
 
 
+def stable_hash(text):
+    """A hash of a string that does not change between interpreter runs (str.__hash__ is salted per process)."""
+    import zlib
+    return zlib.crc32(str(text).encode())
+
+
 class Report:
     def __init__(self, pid, level, tier, seed, design_ref=""):
         self.pid, self.level, self.tier, self.seed = pid, level, tier, seed
